@@ -250,12 +250,12 @@ func (sw *SlidingWindow) Add(data any) {
 	// landing in a triggered window still open for late updates. Drop the rest so
 	// sw.data cannot grow without bound under sustained out-of-order input.
 	if timeChar == types.EventTime && sw.watermark != nil && sw.watermark.IsEventTimeLate(eventTime) {
-		switch {
-		case sw.initialized && sw.currentSlot != nil && sw.currentSlot.Contains(eventTime):
-			// watermark advanced past the window start but the window has not
-			// triggered yet; the row triggers normally, keep it.
-		case sw.config.AllowedLateness > 0:
-			placed := false
+		// watermark advanced past the window start but the window has not
+		// triggered yet: the row triggers normally, keep it.
+		placed := sw.initialized && sw.currentSlot != nil && sw.currentSlot.Contains(eventTime)
+		// Sliding windows overlap: a row of the current window may also belong to an
+		// already-triggered window that is still open for late updates.
+		if sw.config.AllowedLateness > 0 {
 			for _, info := range sw.triggeredWindows {
 				if info.slot.Contains(eventTime) {
 					sw.handleLateData(eventTime, sw.config.AllowedLateness)
@@ -263,12 +263,9 @@ func (sw *SlidingWindow) Add(data any) {
 					break
 				}
 			}
-			if !placed {
-				// beyond allowed lateness with no open triggered window: drop
-				sw.dropLastRow()
-			}
-		default:
-			// AllowedLateness == 0 (default) and not in the current window: drop
+		}
+		if !placed {
+			// not in the current window and no open triggered window: drop
 			sw.dropLastRow()
 		}
 	}
